@@ -1,6 +1,8 @@
 /-
-  Proofs about the stream protocol model (`Model/StreamMsg.lean`): error codes, cursor preservation,
-  inclusive ranges, per-variable answers, and independence of the order of the parameter groups.
+  Proofs about the stream protocol model (`Model/StreamMsg.lean`): error codes, preservation of the
+  state (cursor and clause cache) by `handleC` — with the statements about `handle` (nnf-loaded model)
+  as corollaries —, the link between an accepted `clause-update` and `CC.update`, inclusive ranges,
+  per-variable answers, and independence of the order of the parameter groups.
 -/
 import DdnnfVerif.Model.StreamMsg
 namespace Ddnnf.Msg
@@ -16,65 +18,86 @@ def Reply.CodeOK : Reply → Prop
 @[simp] theorem Reply.codeOK_err (c : Nat) (t : Option String) :
     (Reply.err c t).CodeOK ↔ 2 ≤ c ∧ c ≤ 6 := Iff.rfl
 
-theorem boundaryErr_codeOK (b : Nat) : (boundaryErr b).CodeOK := by
+/-- an error reply with a documented code E2..E6 (what the parsers return when they reject) -/
+def Reply.ErrOK : Reply → Prop
+  | .ok _ => False
+  | .err c _ => 2 ≤ c ∧ c ≤ 6
+
+@[simp] theorem Reply.errOK_ok (t : Option String) : (Reply.ok t).ErrOK ↔ False := Iff.rfl
+@[simp] theorem Reply.errOK_err (c : Nat) (t : Option String) :
+    (Reply.err c t).ErrOK ↔ 2 ≤ c ∧ c ≤ 6 := Iff.rfl
+
+theorem Reply.ErrOK.codeOK {r : Reply} (h : r.ErrOK) : r.CodeOK := by
+  cases r with
+  | ok t => trivial
+  | err c t => exact h
+
+theorem Reply.ErrOK.not_ok {r : Reply} (h : r.ErrOK) (t : Option String) : r ≠ .ok t := by
+  rintro rfl; exact h
+
+theorem boundaryErr_errOK (b : Nat) : (boundaryErr b).ErrOK := by
   simp [boundaryErr, E]
 
-theorem getNumbers_boundaryCheck_codeOK (b : Nat) (nums : List Int) (k : Nat) (r : Reply)
-    (h : getNumbers.boundaryCheck b nums k = .fail r) : r.CodeOK := by
+theorem getNumbers_boundaryCheck_errOK (b : Nat) (nums : List Int) (k : Nat) (r : Reply)
+    (h : getNumbers.boundaryCheck b nums k = .fail r) : r.ErrOK := by
   unfold getNumbers.boundaryCheck at h
   split at h
-  · cases h; exact boundaryErr_codeOK b
+  · cases h; exact boundaryErr_errOK b
   · cases h
 
-theorem getNumbers_finish_codeOK (b : Nat) (nums : List Int) (k : Nat) (r : Reply)
-    (h : getNumbers.finish b nums k = .fail r) : r.CodeOK := by
+theorem getNumbers_finish_errOK (b : Nat) (nums : List Int) (k : Nat) (r : Reply)
+    (h : getNumbers.finish b nums k = .fail r) : r.ErrOK := by
   unfold getNumbers.finish at h
   split at h
   · cases h; simp [E]
-  · exact getNumbers_boundaryCheck_codeOK b nums k r h
+  · exact getNumbers_boundaryCheck_errOK b nums k r h
 
-theorem getNumbers_go_codeOK (b : Nat) (ps : List String) (nums : List Int) (k : Nat) (r : Reply)
-    (h : getNumbers.go b ps nums k = .fail r) : r.CodeOK := by
+theorem getNumbers_go_errOK (b : Nat) (ps : List String) (nums : List Int) (k : Nat) (r : Reply)
+    (h : getNumbers.go b ps nums k = .fail r) : r.ErrOK := by
   fun_induction getNumbers.go b ps nums k with
-  | case1 nums k => exact getNumbers_finish_codeOK b nums k r h
-  | case2 w rest nums k hw => exact getNumbers_boundaryCheck_codeOK b nums k r h
+  | case1 nums k => exact getNumbers_finish_errOK b nums k r h
+  | case2 w rest nums k hw => exact getNumbers_boundaryCheck_errOK b nums k r h
   | case3 w rest nums k hw hp => cases h; simp
-  | case4 w rest nums k hw x y hp hb => cases h; exact boundaryErr_codeOK b
+  | case4 w rest nums k hw x y hp hb => cases h; exact boundaryErr_errOK b
   | case5 w rest nums k hw x y hp hb ih => exact ih h
 
-theorem getNumbers_codeOK (b : Nat) (ps : List String) (r : Reply)
-    (h : getNumbers b ps = .fail r) : r.CodeOK :=
-  getNumbers_go_codeOK b ps [] 0 r h
+theorem getNumbers_errOK (b : Nat) (ps : List String) (r : Reply)
+    (h : getNumbers b ps = .fail r) : r.ErrOK :=
+  getNumbers_go_errOK b ps [] 0 r h
 
-theorem getFloats_go_codeOK (ps : List String) (k : Nat) (r : Reply)
-    (h : getFloats.go ps k = .inr r) : r.CodeOK := by
+theorem getFloats_go_errOK (ps : List String) (k : Nat) (r : Reply)
+    (h : getFloats.go ps k = .inr r) : r.ErrOK := by
   fun_induction getFloats.go ps k <;> first | (cases h; simp [E]; done) | (cases h; done) | simp_all
 
-theorem getFloats_codeOK (ps : List String) (r : Reply) (h : getFloats ps = .inr r) : r.CodeOK :=
-  getFloats_go_codeOK ps 0 r h
+theorem getFloats_errOK (ps : List String) (r : Reply) (h : getFloats ps = .inr r) : r.ErrOK :=
+  getFloats_go_errOK ps 0 r h
 
-theorem parseClauses_each_codeOK (total : Nat) (args : List String) (cs : List (List String)) (k : Nat)
-    (r : Reply) (h : parseClauses.each total args cs k = .inr r) : r.CodeOK := by
-  fun_induction parseClauses.each total args cs k with
-  | case1 k => cases h
-  | case2 k c cs r' hg => cases h; exact getNumbers_codeOK total _ _ hg
-  | case3 k c cs nums len hg k' ih => exact ih h
+theorem parseClauses_each_errOK (total : Nat) (args : List String) (cs : List (List String)) (k : Nat)
+    (acc : List (List Int)) (r : Reply) (h : parseClauses.each total args cs k acc = .inr r) :
+    r.ErrOK := by
+  induction cs generalizing k acc with
+  | nil => simp [parseClauses.each] at h
+  | cons c cs ih =>
+      simp only [parseClauses.each] at h
+      split at h
+      · rename_i hg; cases h; exact getNumbers_errOK total _ _ hg
+      · exact ih _ _ h
 
-theorem parseClauses_codeOK (total : Nat) (args : List String) (r : Reply)
-    (h : parseClauses total args = .inr r) : r.CodeOK := by
+theorem parseClauses_errOK (total : Nat) (args : List String) (r : Reply)
+    (h : parseClauses total args = .inr r) : r.ErrOK := by
   simp only [parseClauses] at h
   split at h
   · cases h; simp [E]
   · cases h; simp [E]
-  · exact parseClauses_each_codeOK _ _ _ _ _ h
+  · exact parseClauses_each_errOK _ _ _ _ _ _ h
 
-theorem paramLoop_codeOK (total fuel : Nat) (ts : List String) (p : Params) (r : Reply)
-    (h : paramLoop total fuel ts p = .inr r) : r.CodeOK := by
+theorem paramLoop_errOK (total fuel : Nat) (ts : List String) (p : Params) (r : Reply)
+    (h : paramLoop total fuel ts p = .inr r) : r.ErrOK := by
   fun_induction paramLoop total fuel ts p <;> first
     | (cases h; done)
     | (cases h; simp [E]; done)
     | (rename_i ih; exact ih h)
-    | (cases h; rename_i hg; first | exact getNumbers_codeOK _ _ _ hg | exact getFloats_codeOK _ _ hg | exact parseClauses_codeOK _ _ _ hg)
+    | (cases h; rename_i hg; first | exact getNumbers_errOK _ _ _ hg | exact getFloats_errOK _ _ hg | exact parseClauses_errOK _ _ _ hg)
 
 /-! ### the handler -/
 
@@ -84,90 +107,233 @@ theorem enumerate_none_cursor (nodes : List NType) (n : Nat) (cur : Cursor) (A :
   repeat' split
   all_goals first | rfl | simp_all
 
-theorem enum_branch (nodes : List NType) (n : Nat) (cur : Cursor) (A : List Int) (lim : Nat)
-    (P : Prop) (hP : P) (f : List Config → Option String) (s : String) :
-    let e := enumerate nodes n cur A lim
-    let x : Cursor × Reply := match e.2 with
-      | some cs => (e.1, .ok (f cs))
-      | none => (e.1, E 5 s)
-    x.2.CodeOK ∧ (x.1 = cur ∨ (P ∧ ∃ t, x.2 = .ok t)) := by
-  intro e x
-  have hn := enumerate_none_cursor nodes n cur A lim
-  cases he : e.2 with
-  | none =>
-      have : x = (e.1, E 5 s) := by simp only [x, he]
-      rw [this]
-      exact ⟨⟨by decide, by decide⟩, Or.inl (hn he)⟩
-  | some cs =>
-      have : x = (e.1, .ok (f cs)) := by simp only [x, he]
-      rw [this]
-      exact ⟨trivial, Or.inr ⟨hP, _, rfl⟩⟩
+/-- what one message does to the state of the handler: the reply carries a documented code, and either
+the state is the old one (and then a result is not the answer to `clause-update` / `undo-update`), or
+the reply is a result and the command is `enum` (cache kept), an accepted `clause-update` (the cache
+is the updated one) or `undo-update` (there is a cache) -/
+def Step (st : HState) (hd : String) (x : HState × Reply) : Prop :=
+  x.2.CodeOK ∧
+    ((x.1 = st ∧ ((∃ t, x.2 = .ok t) → hd ≠ "clause-update" ∧ hd ≠ "undo-update")) ∨
+     ((∃ t, x.2 = .ok t) ∧
+      ((hd = "enum" ∧ x.1.cache = st.cache) ∨
+       (hd = "clause-update" ∧ ∃ c total adds rmvs, st.cache = some c ∧
+          (CC.update c (some total) adds rmvs).2 = .ok ∧
+          x.1.cache = some (CC.update c (some total) adds rmvs).1) ∨
+       (hd = "undo-update" ∧ st.cache ≠ none))))
 
-theorem good_ite {cur : Cursor} {Q : Prop} {c : Prop} [Decidable c] {a b : Cursor × Reply}
-    (ha : a.2.CodeOK ∧ (a.1 = cur ∨ Q)) (hb : b.2.CodeOK ∧ (b.1 = cur ∨ Q)) :
-    (if c then a else b).2.CodeOK ∧ ((if c then a else b).1 = cur ∨ Q) := by
+theorem step_ok (st : HState) (hd : String) (t : Option String)
+    (h1 : hd ≠ "clause-update") (h2 : hd ≠ "undo-update") : Step st hd (st, .ok t) :=
+  ⟨trivial, Or.inl ⟨rfl, fun _ => ⟨h1, h2⟩⟩⟩
+
+theorem step_err (st : HState) (hd : String) (r : Reply) (h : r.ErrOK) : Step st hd (st, r) :=
+  ⟨h.codeOK, Or.inl ⟨rfl, fun ⟨t, ht⟩ => absurd ht (h.not_ok t)⟩⟩
+
+theorem step_E (st : HState) (hd : String) (c : Nat) (s : String) (h : 2 ≤ c ∧ c ≤ 6) :
+    Step st hd (st, E c s) :=
+  step_err st hd (E c s) h
+
+theorem step_ite {st : HState} {hd : String} {c : Prop} [Decidable c] {a b : HState × Reply}
+    (ha : Step st hd a) (hb : Step st hd b) : Step st hd (if c then a else b) := by
   split <;> assumption
 
-/-- the handler either leaves the cursor alone or the command is `enum` and the reply is a result;
-every error reply carries one of the documented codes -/
-theorem handle_spec (nodes : List NType) (n : Nat) (cur : Cursor) (line : String) :
-    (handle nodes n cur line).2.CodeOK ∧
-      ((handle nodes n cur line).1 = cur ∨
-        ((tokens line).head? = some "enum" ∧ ∃ t, (handle nodes n cur line).2 = .ok t)) := by
-  simp only [handle]
+/-- the arms of the dispatch that do not touch the state (the command is neither `clause-update` nor
+`undo-update`: both facts are in the context) -/
+macro "easy_steps" : tactic =>
+  `(tactic| repeat first
+      | exact step_ok _ _ _ (by assumption) (by assumption)
+      | exact step_E _ _ _ _ ⟨by decide, by decide⟩
+      | apply step_ite
+      | split)
+
+theorem enum_branch (nodes : List NType) (n : Nat) (st : HState) (A : List Int) (lim : Nat)
+    (f : List Config → Option String) (s : String) :
+    let e := enumerate nodes n st.cur A lim
+    let x : HState × Reply := match e.2 with
+      | some cs => ({ st with cur := e.1 }, .ok (f cs))
+      | none => ({ st with cur := e.1 }, E 5 s)
+    Step st "enum" x := by
+  intro e x
+  have hn := enumerate_none_cursor nodes n st.cur A lim
+  cases he : e.2 with
+  | none =>
+      have : x = (st, E 5 s) := by
+        have h1 : e.1 = st.cur := hn he
+        simp only [x, he, h1]
+      rw [this]
+      exact step_E _ _ _ _ ⟨by decide, by decide⟩
+  | some cs =>
+      have : x = ({ st with cur := e.1 }, .ok (f cs)) := by simp only [x, he]
+      rw [this]
+      exact ⟨trivial, Or.inr ⟨⟨_, rfl⟩, Or.inl ⟨rfl, rfl⟩⟩⟩
+
+theorem update_branch (st : HState) (c : CC.Cache) (hc : st.cache = some c) (total : Nat)
+    (adds rmvs : List (List Int)) (s : String) :
+    let u := CC.update c (some total) adds rmvs
+    let x : HState × Reply :=
+      if u.2 == .ok then ({ st with cache := some u.1, cur := [] }, .ok (some "")) else (st, E 5 s)
+    Step st "clause-update" x := by
+  intro u x
+  by_cases hv : (u.2 == .ok) = true
+  · have : x = ({ st with cache := some u.1, cur := [] }, .ok (some "")) := by simp only [x, hv, if_true]
+    rw [this]
+    exact ⟨trivial, Or.inr ⟨⟨_, rfl⟩, Or.inr (Or.inl ⟨rfl, c, total, adds, rmvs, hc, by simpa using hv, rfl⟩)⟩⟩
+  · have : x = (st, E 5 s) := by simp only [x, hv]; rfl
+    rw [this]
+    exact step_E _ _ _ _ ⟨by decide, by decide⟩
+
+/-- the handler: see `Step` -/
+theorem handleC_spec (nodes : List NType) (n : Nat) (st : HState) (line : String) :
+    Step st ((tokens line).head?.getD "") (handleC nodes n st line) := by
+  simp only [handleC]
   split
-  · simp [E]
+  · exact step_E _ _ _ _ ⟨by decide, by decide⟩
   · rename_i cmd tail htok
     split
-    · simp [E]
+    · exact step_E _ _ _ _ ⟨by decide, by decide⟩
     · split
-      · split
-        · simp [E]
-        · split
-          · split <;> simp [E]
-          · simp [E]
-      · split
+      · rename_i r heq
+        apply step_err
+        repeat' split at heq
+        all_goals first | (cases heq; simp [E]; done) | (cases heq; done)
+      · rename_i total args heq
+        clear heq
+        split
         · rename_i r hr
-          exact ⟨paramLoop_codeOK _ _ _ _ _ hr, Or.inl rfl⟩
+          exact step_err _ _ _ (paramLoop_errOK _ _ _ _ _ hr)
         · rename_i p hp
-          by_cases h1 : (cmd == "count") = true
-          · rw [if_pos h1]; exact ⟨trivial, Or.inl rfl⟩
-          rw [if_neg h1]
-          by_cases h2 : (cmd == "sat") = true
-          · rw [if_pos h2]; exact ⟨trivial, Or.inl rfl⟩
-          rw [if_neg h2]
-          by_cases h3 : (cmd == "core") = true
-          · rw [if_pos h3]; exact ⟨trivial, Or.inl rfl⟩
-          rw [if_neg h3]
+          have hhd : (tokens line).head?.getD "" = cmd := by rw [htok]; rfl
+          rw [hhd]
+          clear hp htok hhd
+          by_cases h8 : cmd = "clause-update"
+          · subst h8
+            iterate 7 rw [if_neg (by decide)]
+            rw [if_pos (by decide)]
+            split
+            · exact step_E _ _ _ _ ⟨by decide, by decide⟩
+            · rename_i c hc
+              exact update_branch st c hc total p.adds p.rmvs _
+          by_cases h9 : cmd = "undo-update"
+          · subst h9
+            iterate 8 rw [if_neg (by decide)]
+            rw [if_pos (by decide)]
+            split
+            · exact step_E _ _ _ _ ⟨by decide, by decide⟩
+            · rename_i c hc
+              exact ⟨trivial, Or.inr ⟨⟨_, rfl⟩, Or.inr (Or.inr ⟨rfl, by simp [hc]⟩)⟩⟩
+          iterate 3 apply step_ite (step_ok _ _ _ h8 h9)
           by_cases h4 : (cmd == "enum") = true
           · rw [if_pos h4]
-            have hcmd : cmd = "enum" := by simpa using h4
-            have hhead : (tokens line).head? = some "enum" := by rw [htok, hcmd]; rfl
-            exact enum_branch nodes n cur p.params _ _ hhead _ _
+            obtain rfl : cmd = "enum" := by simpa using h4
+            exact enum_branch nodes n st p.params _ _ _
           rw [if_neg h4]
-          repeat first
-            | exact ⟨trivial, Or.inl rfl⟩
-            | exact ⟨⟨by decide, by decide⟩, Or.inl rfl⟩
-            | apply good_ite
+          have h8' : ¬(cmd == "clause-update") = true := by simpa using h8
+          have h9' : ¬(cmd == "undo-update") = true := by simpa using h9
+          rw [if_neg h8', if_neg h9']
+          easy_steps
+
+/-! #### the statements about the CNF-loaded handler -/
+
+theorem handleC_code_ok (nodes : List NType) (n : Nat) (st : HState) (line : String) :
+    match (handleC nodes n st line).2 with
+    | .ok _ => True
+    | .err c _ => 2 ≤ c ∧ c ≤ 6 :=
+  (handleC_spec nodes n st line).1
+
+/-- a rejected line changes neither the cursor nor the clause cache -/
+theorem handleC_err_keeps_state (nodes : List NType) (n : Nat) (st : HState) (line : String)
+    (c : Nat) (t : Option String) (h : (handleC nodes n st line).2 = .err c t) :
+    (handleC nodes n st line).1 = st := by
+  rcases (handleC_spec nodes n st line).2 with ⟨h', _⟩ | ⟨⟨t', h'⟩, _⟩
+  · exact h'
+  · rw [h] at h'; cases h'
+
+theorem handleC_err_keeps_cursor_and_cache (nodes : List NType) (n : Nat) (st : HState) (line : String)
+    (c : Nat) (t : Option String) (h : (handleC nodes n st line).2 = .err c t) :
+    (handleC nodes n st line).1.cur = st.cur ∧ (handleC nodes n st line).1.cache = st.cache := by
+  rw [handleC_err_keeps_state nodes n st line c t h]; exact ⟨rfl, rfl⟩
+
+theorem head_of_getD {l : List String} {s : String} (hs : s ≠ "") (h : l.head?.getD "" = s) :
+    l.head? = some s := by
+  cases l with
+  | nil => exact absurd h.symm hs
+  | cons a t => exact congrArg some h
+
+/-- the clause cache changes at most by `clause-update` and `undo-update` -/
+theorem handleC_cache_changes_only_by_update_or_undo (nodes : List NType) (n : Nat) (st : HState)
+    (line : String) (h : (tokens line).head? ≠ some "clause-update")
+    (h' : (tokens line).head? ≠ some "undo-update") :
+    (handleC nodes n st line).1.cache = st.cache := by
+  rcases (handleC_spec nodes n st line).2 with ⟨hs, _⟩ | ⟨_, ⟨_, hc⟩ | ⟨hd, _⟩ | ⟨hd, _⟩⟩
+  · rw [hs]
+  · exact hc
+  · exact absurd (head_of_getD (by decide) hd) h
+  · exact absurd (head_of_getD (by decide) hd) h'
+
+/-- every command other than `enum`, `clause-update` and `undo-update` leaves the whole state alone -/
+theorem handleC_other_keeps_state (nodes : List NType) (n : Nat) (st : HState) (line : String)
+    (h : (tokens line).head? ≠ some "enum") (h' : (tokens line).head? ≠ some "clause-update")
+    (h'' : (tokens line).head? ≠ some "undo-update") : (handleC nodes n st line).1 = st := by
+  rcases (handleC_spec nodes n st line).2 with ⟨hs, _⟩ | ⟨_, ⟨hd, _⟩ | ⟨hd, _⟩ | ⟨hd, _⟩⟩
+  · exact hs
+  · exact absurd (head_of_getD (by decide) hd) h
+  · exact absurd (head_of_getD (by decide) hd) h'
+  · exact absurd (head_of_getD (by decide) hd) h''
+
+/-- an accepted `clause-update` on a CNF-loaded model is an accepted `CC.update` of the clause cache,
+and the new cache is the one that update produces (the bridge to `CC.run_refines`) -/
+theorem handleC_update_is_cache_update (nodes : List NType) (n : Nat) (st : HState) (line : String)
+    (c : CC.Cache) (t : Option String) (hcmd : (tokens line).head? = some "clause-update")
+    (hc : st.cache = some c) (hok : (handleC nodes n st line).2 = .ok t) :
+    ∃ total adds rmvs, (CC.update c (some total) adds rmvs).2 = .ok ∧
+      (handleC nodes n st line).1.cache = some (CC.update c (some total) adds rmvs).1 := by
+  have hhd : (tokens line).head?.getD "" = "clause-update" := by rw [hcmd]; rfl
+  have hs := (handleC_spec nodes n st line).2
+  rw [hhd] at hs
+  rcases hs with ⟨_, hne⟩ | ⟨_, ⟨hd, _⟩ | ⟨_, c', total, adds, rmvs, hc', hv, hn⟩ | ⟨hd, _⟩⟩
+  · exact absurd rfl (hne ⟨t, hok⟩).1
+  · exact absurd hd (by decide)
+  · have : c' = c := by rw [hc] at hc'; exact (Option.some.inj hc').symm
+    subst this
+    exact ⟨total, adds, rmvs, hv, hn⟩
+  · exact absurd hd (by decide)
+
+/-- an answered `clause-update` / `undo-update` means the model was loaded from a CNF -/
+theorem handleC_update_or_undo_ok_has_cache (nodes : List NType) (n : Nat) (st : HState) (line : String)
+    (t : Option String)
+    (hcmd : (tokens line).head? = some "clause-update" ∨ (tokens line).head? = some "undo-update")
+    (hok : (handleC nodes n st line).2 = .ok t) : st.cache ≠ none := by
+  have hs := (handleC_spec nodes n st line).2
+  rcases hcmd with hcmd | hcmd <;> rw [hcmd] at hs <;>
+    rcases hs with ⟨_, hne⟩ | ⟨_, ⟨hd, _⟩ | ⟨hd, c', _, _, _, hc', _⟩ | ⟨hd, hc'⟩⟩
+  all_goals first
+    | exact absurd rfl (hne ⟨t, hok⟩).1
+    | exact absurd rfl (hne ⟨t, hok⟩).2
+    | exact absurd hd (by decide)
+    | exact hc'
+    | (rw [hc']; exact Option.some_ne_none _)
+
+/-! #### the handler of a model loaded from an nnf file: corollaries -/
 
 theorem handle_code_ok (nodes : List NType) (n : Nat) (cur : Cursor) (line : String) :
     match (handle nodes n cur line).2 with
     | .ok _ => True
     | .err c _ => 2 ≤ c ∧ c ≤ 6 :=
-  (handle_spec nodes n cur line).1
+  handleC_code_ok nodes n { cur := cur, cache := none } line
 
 theorem handle_err_keeps_cursor (nodes : List NType) (n : Nat) (cur : Cursor) (line : String)
     (c : Nat) (t : Option String) (h : (handle nodes n cur line).2 = .err c t) :
-    (handle nodes n cur line).1 = cur := by
-  rcases (handle_spec nodes n cur line).2 with h' | ⟨_, t', h'⟩
-  · exact h'
-  · rw [h] at h'; cases h'
+    (handle nodes n cur line).1 = cur :=
+  congrArg HState.cur (handleC_err_keeps_state nodes n { cur := cur, cache := none } line c t h)
 
 theorem handle_non_enum_keeps_cursor (nodes : List NType) (n : Nat) (cur : Cursor) (line : String)
     (h : (tokens line).head? ≠ some "enum") : (handle nodes n cur line).1 = cur := by
-  rcases (handle_spec nodes n cur line).2 with h' | ⟨h', _⟩
-  · exact h'
-  · exact absurd h' h
+  show (handleC nodes n { cur := cur, cache := none } line).1.cur = cur
+  rcases (handleC_spec nodes n { cur := cur, cache := none } line).2 with
+    ⟨hs, _⟩ | ⟨_, ⟨hd, _⟩ | ⟨_, _, _, _, _, hc, _⟩ | ⟨_, hc⟩⟩
+  · rw [hs]
+  · exact absurd (head_of_getD (by decide) hd) h
+  · cases hc
+  · exact absurd rfl hc
 
 /-! ### ranges and per-variable answers -/
 
